@@ -29,9 +29,9 @@ type Proc struct {
 	boxed         map[*types.Var]bool
 	capturedByRef map[*types.Var]bool
 	closureOf     map[types.Object]*ClosureVal
-	rangeIdx      map[int]*types.Var
-	visited       map[int]*types.Var
-	iters         map[int]*types.Var
+	rangeIdx      map[string]*types.Var
+	visited       map[string]*types.Var
+	iters         map[string]*types.Var
 	visitedSort   map[*types.Var]Sort
 	nameCount     map[string]int
 	params        []*types.Var
@@ -60,8 +60,8 @@ func newProc(c *Ctx, fi *FuncInfo) *Proc {
 	return &Proc{ctx: c, fi: fi, contract: c.contracts[fi.Key],
 		heapEntry: map[string]*Term{}, maxStates: 600,
 		boxed: map[*types.Var]bool{}, capturedByRef: map[*types.Var]bool{},
-		closureOf: map[types.Object]*ClosureVal{}, rangeIdx: map[int]*types.Var{}, loopFrame: map[string]map[string]bool{},
-		visited: map[int]*types.Var{}, iters: map[int]*types.Var{}, visitedSort: map[*types.Var]Sort{},
+		closureOf: map[types.Object]*ClosureVal{}, rangeIdx: map[string]*types.Var{}, loopFrame: map[string]map[string]bool{},
+		visited: map[string]*types.Var{}, iters: map[string]*types.Var{}, visitedSort: map[*types.Var]Sort{},
 		nameCount: map[string]int{}, cbParams: map[string]*types.Var{}, lets: map[string]Val{}, cbAlias: map[*types.Var]*types.Var{}, assertFired: map[*Clause]bool{}}
 }
 
